@@ -1,0 +1,122 @@
+//go:build verif
+
+package stake
+
+// Contracts for the deductive checks in /verif (tool: govc). Comment-only; build tag `verif`.
+// Spec functions live in /verif/spec/stake.spec.
+
+// ---- rewards (C13) -------------------------------------------------------------------------------
+
+//@ func (rwd *Reward) Issue(r, h)
+//@   nopanic
+//@   requires wf_rwd(rwd) && r != nil && r != rwd.cumulated && r != rwd.issued
+//@   requires rwd.height <= h
+//@   modifies rwd.issued, rwd.height, u(rwd.issued), u(rwd.cumulated)
+//@   allocates uint256.Int
+//@   ensures result == nil && wf_rwd(rwd) && rwd.height == h                                                  [C13]
+//@   ensures old(u(rwd.cumulated)) + old(u(r)) < 2^256 ==> u(rwd.cumulated) == old(u(rwd.cumulated)) + old(u(r))   [C13]
+//@   ensures rwd.cumulated == old(rwd.cumulated) && rwd.withdrawn == old(rwd.withdrawn) && rwd.slashed == old(rwd.slashed)   [C13]
+
+//@ func (rwd *Reward) Withdraw(r, h)
+//@   nopanic
+//@   requires wf_rwd(rwd) && r != nil && r != rwd.cumulated && r != rwd.withdrawn
+//@   requires rwd.height <= h
+//@   requires u(r) <= u(rwd.cumulated)
+//@   modifies rwd.withdrawn, rwd.height, u(rwd.withdrawn), u(rwd.cumulated)
+//@   allocates uint256.Int
+//@   ensures result == nil && wf_rwd(rwd) && rwd.height == h                                                  [C13]
+//@   ensures u(rwd.cumulated) == old(u(rwd.cumulated)) - old(u(r))                                            [C13]
+//@   ensures rwd.cumulated == old(rwd.cumulated) && rwd.issued == old(rwd.issued) && rwd.slashed == old(rwd.slashed)   [C13]
+
+// ---- missed-block marker (C14) -------------------------------------------------------------------
+
+//@ func (bm *BlockMarker) Mark(height)
+//@   nopanic
+//@   requires bm != nil
+//@   modifies bm.BlockHeights, elems(bm.BlockHeights)
+//@   allocates []int64
+//@   ensures result == nil ==> len(bm.BlockHeights) == old(len(bm.BlockHeights)) + 1 && bm.BlockHeights[old(len(bm.BlockHeights))] == height   [C14]
+//@   ensures result == nil ==> (forall i :: 0 <= i && i < old(len(bm.BlockHeights)) ==> bm.BlockHeights[i] == old(bm.BlockHeights[i]))   [C14]
+//@   ensures result == nil ==> (old(len(bm.BlockHeights)) > 0 ==> old(bm.BlockHeights[len(bm.BlockHeights) - 1]) < height)   [C14]
+//@   ensures result != nil ==> bm.BlockHeights == old(bm.BlockHeights)                                        [C14]
+
+// ---- stakes and delegatees (C11, C12, C14) -------------------------------------------------------
+
+//@ func (s *Stake) IsSelfStake()
+//@   pure
+//@   nopanic
+//@   requires s != nil
+//@   ensures result == (content(s.From) == content(s.To) || (len(s.From) == 0 && len(s.To) == 0))             [C11]
+
+//@ func (delegatee *Delegatee) findStake(txhash)
+//@   pure
+//@   nopanic
+//@   requires wf_delg(delegatee)
+//@   ensures result0 >= 0 ==> result0 < len(delegatee.Stakes) && result1 == delegatee.Stakes[result0] && result1 != nil   [C11,C12]
+//@   ensures result0 < 0 ==> result0 == -1 && result1 == nil                                                  [C11]
+//@   loop 0: invariant true
+
+//@ func (delegatee *Delegatee) FindStake(txhash)
+//@   sameas (*Delegatee).findStake
+
+//@ func (delegatee *Delegatee) delStakeByIdx(idx)
+//@   nopanic
+//@   requires wf_delg(delegatee) && idx >= 0
+//@   modifies delegatee.Stakes, elems(delegatee.Stakes)
+//@   ensures wf_delg(delegatee)                                                                               [C11]
+//@   ensures idx >= old(len(delegatee.Stakes)) ==> result == nil && delegatee.Stakes == old(delegatee.Stakes)  [C11]
+//@   ensures idx < old(len(delegatee.Stakes)) ==> result == old(delegatee.Stakes[idx]) && len(delegatee.Stakes) == old(len(delegatee.Stakes)) - 1   [C11]
+//@   ensures idx < old(len(delegatee.Stakes)) ==> (forall i :: 0 <= i && i < idx ==> delegatee.Stakes[i] == old(delegatee.Stakes[i])) && (forall i :: idx <= i && i < len(delegatee.Stakes) ==> delegatee.Stakes[i] == old(delegatee.Stakes[i + 1]))   [C11]
+
+//@ func (delegatee *Delegatee) DelStake(txhash)
+//@   nopanic
+//@   requires wf_delg(delegatee)
+//@   modifies delegatee.Stakes, elems(delegatee.Stakes), delegatee.SelfPower, delegatee.TotalPower
+//@   ensures wf_delg(delegatee)                                                                               [C11]
+//@   ensures result != nil ==> delegatee.TotalPower == old(delegatee.TotalPower) - result.Power && len(delegatee.Stakes) == old(len(delegatee.Stakes)) - 1   [C11]
+//@   ensures result == nil ==> delegatee.TotalPower == old(delegatee.TotalPower) && delegatee.SelfPower == old(delegatee.SelfPower) && delegatee.Stakes == old(delegatee.Stakes)   [C11]
+
+//@ func (delegatee *Delegatee) DelAllStakes()
+//@   nopanic
+//@   requires wf_delg(delegatee)
+//@   modifies delegatee.Stakes, delegatee.TotalPower
+//@   ensures delegatee.Stakes == nil && result == old(delegatee.Stakes)                                       [C11,C12]
+//@   loop 0: modifies delegatee.TotalPower
+//@   loop 0: invariant delegatee.Stakes == nil
+
+//@ func (delegatee *Delegatee) SelfStakeRatio(added)
+//@   nopanic
+//@   requires delegatee != nil && delegatee.TotalPower + added != 0
+//@   pure
+
+// ---- withdraw, unbonding and refund in the controller (C12, C13, C06) ----------------------------
+
+//@ func (ctrler *StakeCtrler) exeWithdraw(ctx)
+//@   objinv ctrler != nil && ctrler.rewardLedger != nil
+//@   assumes cons_ok == ctx.Exec
+//@   assumes as(ctx.Tx.Payload, ptr(TrxPayloadWithdraw)).ReqAmt != rwd_at(ctrler.rewardLedger, lkey(content(ctx.Tx.From)), ctx.Exec).cumulated && as(ctx.Tx.Payload, ptr(TrxPayloadWithdraw)).ReqAmt != rwd_at(ctrler.rewardLedger, lkey(content(ctx.Tx.From)), ctx.Exec).withdrawn
+//@   requires wf_ctx(ctx) && ctx.Tx.Type == 8
+//@   requires rwd_at(ctrler.rewardLedger, lkey(content(ctx.Tx.From)), ctx.Exec).height <= ctx.Height
+//@   requires u(as(ctx.Tx.Payload, ptr(TrxPayloadWithdraw)).ReqAmt) <= u(rwd_at(ctrler.rewardLedger, lkey(content(ctx.Tx.From)), ctx.Exec).cumulated)
+//@   modifies everything
+//@   assert@call(Withdraw,0): $arg0 == rwd_at(ctrler.rewardLedger, lkey(content(ctx.Tx.From)), ctx.Exec) && $arg1 == as(ctx.Tx.Payload, ptr(TrxPayloadWithdraw)).ReqAmt && $arg2 == ctx.Height   [C13]
+//@   assert@call(Reward,0): $arg0 == ctx.Sender.Address && $arg1 == as(ctx.Tx.Payload, ptr(TrxPayloadWithdraw)).ReqAmt && $arg2 == ctx.Exec   [C13]
+
+//@ func (ctrler *StakeCtrler) exeUnstaking(ctx)
+//@   objinv ctrler != nil && ctrler.delegateeLedger != nil && ctrler.frozenLedger != nil
+//@   assumes cons_ok == ctx.Exec
+//@   requires wf_ctx(ctx) && ctx.Tx.Type == 3 && ctx.Height >= 0 && ctx.Height < 2^62
+//@   modifies everything
+//@   assert@call(DelStake,0): content(ctx.Tx.From) == content(s0.From)                                        [C12]
+//@   assert@store(Stake.RefundHeight,0): $target == s0 && $value == ctx.Height + govLazyReward[ctx.GovHandler]   [C12]
+//@   assert@store(Stake.RefundHeight,1): $target == _s0 && $value == ctx.Height + govLazyReward[ctx.GovHandler]  [C12,C14]
+//@   loop 0: invariant ctx.Height >= 0 && ctx.Height < 2^62 && ctx.GovHandler == old(ctx.GovHandler) && ctx.Height == old(ctx.Height) && ctx.Exec == old(ctx.Exec) && cons_ok == ctx.Exec && ctrler.frozenLedger != nil && ctx.GovHandler != nil
+
+// the callback of unfreezingStakes: refund exactly matured stakes, in full, to their owner, on the
+// consensus path, and delete exactly that stake from the unbonding ledger
+//@ func (ctrler *StakeCtrler) unfreezingStakes__1(s0)
+//@   requires s0 != nil && s0.Power >= 0
+//@   assumes cons_ok && ctrler != nil && ctrler.frozenLedger != nil && acctHandler != nil
+//@   modifies everything
+//@   assert@call(Reward,0): s0.RefundHeight <= height && $arg0 == s0.From && u($arg1) == s0.Power * 10^18 && $arg2 == true   [C12]
+//@   assert@call(DelFinality,0): s0.RefundHeight <= height                                                    [C12]
